@@ -1,2 +1,10 @@
-import TrimeshVerif.Model.SortRuns
-import TrimeshVerif.Model.Grouping
+-- root of the library: every model, proof and property file (Generated/*.lean must exist: harness/setup.sh
+-- runs the translators first)
+import TrimeshVerif.Props.C02
+import TrimeshVerif.Props.C03
+import TrimeshVerif.Props.C05
+import TrimeshVerif.Props.C06
+import TrimeshVerif.Props.C07
+import TrimeshVerif.Props.C09
+import TrimeshVerif.Props.C13
+import TrimeshVerif.Model.MassRat
